@@ -209,6 +209,27 @@ class SArr:
             raise Unsupported("elem(): wrong number of indices")
         return self.buf.fn(*self.base_index(idx))
 
+    def _reduce_extreme(self, largest):
+        """a.max() / a.min(): ValueError on an empty array (the program's own failure); otherwise unsupported"""
+        c = ctx()
+        if self.dtype.kind not in "iu":
+            raise Unsupported("max/min of a non-integer symbolic array")
+        if c.interp.truth(self.size == 0):
+            raise RaiseSig(ValueError("zero-size array to reduction operation %s which has no identity" % ("maximum" if largest else "minimum")))
+        # the value on a non-empty array is not modelled (it would need a fact about EVERY element that follows the
+        # array through views and copies); only the empty-array failure, which is the program's own, is
+        raise Unsupported("max()/min() of a non-empty symbolic array (only the empty-array ValueError is modelled)")
+
+    def max(self, *a, **k):
+        if a or k:
+            raise Unsupported("max with arguments")
+        return self._reduce_extreme(True)
+
+    def min(self, *a, **k):
+        if a or k:
+            raise Unsupported("min with arguments")
+        return self._reduce_extreme(False)
+
     def in_bounds(self, idx):
         return And(*[And(i >= 0, i < n) for i, n in zip(idx, self.shape)]) if idx else True
 
